@@ -10,8 +10,9 @@
 EXTENDS Concurrent, Json, IOUtils
 Data2 == JsonDeserialize(IOEnv.TRACE_FILE)
 Traces == Data2.traces
-TraceNames == {Data2.names[i] : i \in 1..Len(Data2.names)}
-TraceProcs == 1..Data2.maxnp
+\* (substituted constants are re-evaluated at every use: they must not touch the trace file)
+TraceNames == STRING
+TraceProcs == 1..atoi(IOEnv.MAXNP)
 TraceKind == [p \in TraceProcs |-> "gff"]
 ToSet(sq) == {sq[i] : i \in 1..Len(sq)}
 
